@@ -95,6 +95,33 @@ INLINED_RESULT = {'k': 'call', 'f': {'res': 'inlined::helper_result', 'def': 'in
                   'dest': {'l': -1}, 'sp': {'f': '', 'l': 0}}
 
 
+def path_evading(prog, fn, w, required, tracer=None, via=None):
+    """A path from the entry of fn (through block `via`, when given) to block w that touches none of the blocks
+    `required`, or None when every such path passes one of them ("the validator precedes the write on every path").
+    In a function as rustc built it this is plain CFG reachability, i.e. dominance.  In a function that has absorbed
+    helpers (fn.ret_locals) the block graph also holds paths that no run takes: the `Err(..)` a spliced helper builds
+    before its validator joins the helper's `Ok` at the helper's return place and would flow on into the Continue edge
+    of the caller's `?`.  There the path must be feasible under GuardFlow's variant tracking (Ok/Err of the spliced
+    return places through copies, `branch`, `from_residual`)."""
+    g = cfg(fn)
+    req = set(required)
+    starts = [0] if via is None else [via]
+    p = g.path(starts, lambda b: b == w, avoid=req)
+    if p is None or not getattr(fn, 'ret_locals', None) or w in starts:
+        return p
+    cache = prog.__dict__.setdefault('_path_evading_flows', {})
+    gf = cache.get(fn.p)
+    if gf is None or gf.fn is not fn:
+        from .guards import GuardFlow
+        gf = cache[fn.p] = GuardFlow(prog, fn, lambda desc: None, tracer=tracer)
+    return gf.feasible_path(starts, lambda b: b == w, avoid=req)
+
+
+def precede_on_every_path(prog, fn, vblocks, w, tracer=None):
+    """One of the blocks `vblocks` is passed on every (feasible, see path_evading) path from the entry to block w."""
+    return bool(vblocks) and path_evading(prog, fn, w, vblocks, tracer) is None
+
+
 class WriteBeforeFail:
     def __init__(self, prog, tracer=None):
         self.prog = prog
